@@ -20,7 +20,7 @@ T = {
          "Rocq proofs (stream induction, any carrier) + bit-exact correspondence + composite-vs-public-parts comparison on the implementation"),
  "C17": ("Theorems: over exact reals the last output of SMA, WMA, SD, MAD, BB, FastStochastic, CCI is a function of the last n inputs and that of RateOfChange, EfficiencyRatio, MoneyFlowIndex of the last n+1 (two histories sharing that suffix give equal outputs); Minimum and Maximum exactly, for any strict total order, instantiated bit-exactly for binary64 without NaN/-0.0. Float tolerances: implementation-level suffix-vs-full comparison (partial); WMA drift K7.",
          "Rocq proofs (corollaries of the exact refinement theorems; order theorems) + bit-exact correspondence + suffix-vs-full comparison on the implementation"),
- "C03": ("Theorems for every number type (bit-exact): RSI = 100U/(U+D) from two EMAs of gains/losses seeded 0.1; FastStochastic = formula on Minimum/Maximum (scalar and bar paths), SlowStochastic = EMA(Fast), PPO, CCI, OBV as documented. Over exact reals: FastStochastic is the formula on the least/greatest of exactly the last min(t,n) prices; RateOfChange, EfficiencyRatio, MoneyFlowIndex and CCI refine their documented ratios over the last n / n+1 inputs, with the IEEE value on a zero denominator (C03_roc, C03_er, C03_mfi, C03_cci_exact and the value lemmas). Rounding components: T2 against the exact-rational instance with exact condition numbers (partial).",
+ "C03": ("Theorems for every number type (bit-exact): RSI = 100U/(U+D) from two EMAs of gains/losses seeded 0.1; FastStochastic = formula on Minimum/Maximum (scalar and bar paths), SlowStochastic = EMA(Fast), PPO, CCI, OBV as documented. Over exact reals: FastStochastic is the formula on the least/greatest of exactly the last min(t,n) prices; RateOfChange, EfficiencyRatio, MoneyFlowIndex and CCI refine their documented ratios over the last n / n+1 inputs, with the IEEE value on a zero denominator (C03_roc, C03_er, C03_mfi, C03_cci_exact and the value lemmas); RateOfChange also for every number type (C03_roc_any_carrier) and with a proved relative error of 4*2^-53 on binary64 (C03_roc_binary64_error, Flocq). Other rounding components: T2 against the exact-rational instance with exact condition numbers (partial).",
          "Rocq proofs (stream induction; order-theoretic window characterisation; ring-buffer refinements) + bit-exact correspondence + exact-rational check with condition numbers"),
  "C07": ("Theorems over exact reals (slack 0): FastStochastic in [0,100] on every finite stream; RSI in [0,100] whenever its denominator is non-zero (NaN exactly otherwise); SlowStochastic in [0,100]; EfficiencyRatio in [0,1] whenever the path length is non-zero (triangle inequality along the path); MFI in [0,100] whenever the window carries flow. On binary64 FastStochastic is proved to stay in [0,100] with no slack at all (C07_fast_binary64_range: monotone rounding, Flocq). Rounding slack of the others: range predicate on the implementation (partial).",
          "Rocq proofs (convexity of the EMA recursion, order theorems, triangle inequality) + bit-exact correspondence + range predicate on implementation outputs"),
